@@ -139,9 +139,17 @@ class Effects:
                 if isinstance(summ, tuple):
                     r = {'fresh'}
                     base = self.roots(e.func.value) if isinstance(e.func, ast.Attribute) else {'unknown'}
+                    alias = self.summaries.get(last + '#self')
                     for i, f in enumerate(summ):
                         if not f:
-                            r |= {'pos%d:unknown' % i}
+                            if alias and i < len(alias) and alias[i] and base and 'unknown' not in base:
+                                # this position of the callee's result is (on some path) a view of its receiver's storage
+                                r |= {'pos%d:root:%s' % (i, b) for b in base}
+                            else:
+                                r |= {'pos%d:unknown' % i}
+                    for i, a in enumerate(self.summaries.get(last + '#array') or ()):
+                        if a:
+                            r.add('posarray:%d' % i)
                     return r | {'tuple-summary'}
             if isinstance(e.func, ast.Attribute):
                 m = e.func.attr
@@ -177,8 +185,12 @@ class Effects:
                 for t, r, v in zip(target.elts, rs, value.elts):
                     self._bind(t, r, v)
             elif 'tuple-summary' in roots:
+                arr = {int(x[9:]) for x in roots if x.startswith('posarray:')}
                 for i, t in enumerate(target.elts):
-                    self._bind(t, {'unknown'} if ('pos%d:unknown' % i) in roots else {'fresh'})
+                    if i in arr and isinstance(t, ast.Name):
+                        self.array_evidence.add(t.id)
+                    via = {x.split(':', 2)[2] for x in roots if x.startswith('pos%d:root:' % i)}
+                    self._bind(t, {'unknown'} if ('pos%d:unknown' % i) in roots else (via or {'fresh'}))
             else:
                 elem = {r[5:] if r.startswith('elem:') else r for r in roots}
                 for t in target.elts:
@@ -331,6 +343,8 @@ def build_summaries(prog, modules=None, rounds=3):
              and (modules is None or f.unit.modname in modules)]
     for _ in range(rounds):
         by_name = {}
+        by_alias = {}
+        by_array = {}
         for f in funcs:
             try:
                 eff = Effects(f.node, summaries=summ)
@@ -349,6 +363,15 @@ def build_summaries(prog, modules=None, rounds=3):
             else:
                 verdict = 'no'
             by_name.setdefault(f.name, []).append(verdict)
+            if isinstance(verdict, tuple):
+                # positions that (on some return path) hand out storage of the receiver itself
+                al = tuple(any('self' in r[i] for r in rr) for i in range(len(verdict)))
+                by_alias.setdefault(f.name, []).append(al)
+                # positions that are evidently arrays in the callee (sliced / indexed with an ellipsis, .shape read, ...)
+                rets = [x.value for x in own_nodes(f.node) if isinstance(x, ast.Return) and isinstance(x.value, ast.Tuple)
+                        and len(x.value.elts) == len(verdict)]
+                ar = tuple(any(_arrayish(rv.elts[i], eff) for rv in rets) for i in range(len(verdict)))
+                by_array.setdefault(f.name, []).append(ar)
         new = {}
         for name, vs in by_name.items():
             vs = [v for v in vs if v is not None]
@@ -360,10 +383,36 @@ def build_summaries(prog, modules=None, rounds=3):
                 new[name] = tuple(all(v[i] for v in vs) for i in range(len(vs[0])))
             elif all(v == 'fresh' or isinstance(v, tuple) for v in vs) and len(vs) == 1:
                 new[name] = vs[0]
+        for name, als in by_alias.items():
+            if isinstance(new.get(name), tuple) and len({len(a) for a in als}) == 1 and len(als[0]) == len(new[name]):
+                new[name + '#self'] = tuple(any(a[i] for a in als) for i in range(len(als[0])))
+        for name, ars in by_array.items():
+            if isinstance(new.get(name), tuple) and len({len(a) for a in ars}) == 1 and len(ars[0]) == len(new[name]):
+                new[name + '#array'] = tuple(all(a[i] for a in ars) for i in range(len(ars[0])))
         if new == summ:
             break
         summ = new
     return summ
+
+
+def _arrayish(e, eff, depth=3):
+    if isinstance(e, ast.Name):
+        if e.id in eff.array_evidence:
+            return True
+        if depth <= 0:
+            return False
+        # every definition of the name in the callee is an array expression
+        defs = [s.value for s in own_nodes(eff.fn) if isinstance(s, ast.Assign) and any(isinstance(t, ast.Name) and t.id == e.id for t in s.targets)]
+        return bool(defs) and all(_arrayish(d, eff, depth - 1) for d in defs)
+    if isinstance(e, ast.Subscript):
+        sl = e.slice
+        parts = sl.elts if isinstance(sl, ast.Tuple) else [sl]
+        return any(isinstance(x, ast.Slice) or (isinstance(x, ast.Constant) and x.value is Ellipsis) for x in parts)
+    if isinstance(e, ast.BinOp):
+        return _arrayish(e.left, eff, depth) or _arrayish(e.right, eff, depth)
+    if isinstance(e, ast.Call) and isinstance(e.func, ast.Attribute) and e.func.attr in ('copy', 'reshape', 'ravel', 'astype'):
+        return _arrayish(e.func.value, eff, depth)
+    return False
 
 
 def external_writes(fn, **kw):
